@@ -126,6 +126,9 @@ def r_C15eval(root):
             if fail: raise pyeval.Raised("ValueError")
         me["._model_processors"] = [pyeval.PyFn(proc)]
         mt = load(root, "textx/model.py")
+        for k_, v_ in helper_functions(root, "textx/model.py", "get_model_parser.TextXModelParser._restore_user_attr_methods").items():       # a helper method of the parser class is interpreted on the parser sample
+            if isinstance(getattr(v_, "_parent", None), ast.ClassDef) and v_._parent.name == "TextXModelParser" and not k_.startswith("__") and k_ not in ("_restore_user_attr_methods", "_release_user_obj_attrs"):
+                base["__functions__"] = dict(base.get("__functions__") or {}); base["__functions__"].setdefault(k_, v_)
         for f_ in mt.body:          # the clean-up helper of model.py the handler may call
             if isinstance(f_, ast.FunctionDef) and f_.name in ("_abandon_user_objects",): base.setdefault("__functions__", {}); base["__functions__"] = dict(base["__functions__"], **{f_.name: f_})
         k, v = objmodel.call_method(root, me, base, "_call_model_processors", new2 if fail == "imported" else new1, cached)
